@@ -157,7 +157,7 @@ def run(ctx):
     # in-situ corpus (also gives real CFGs)
     import df_corpus, pool
 
-    progs = df_corpus.programs(ctx.seed, ctx.pick(30, 1500))
+    progs = df_corpus.programs(ctx.seed, ctx.pick(12, 1500))
     pols = ctx.pick(["native", "lifo", "rand"], ["native", "min", "max", "fifo", "lifo", "rand"])
     jobs = [(n, s, p, ctx.seed + i) for i, (n, s) in enumerate(progs) for p in pols]
     ctx.log(f"in-situ: {len(progs)} programs x {len(pols)} policies")
@@ -210,13 +210,13 @@ def run(ctx):
     ctx.log(f"model exploration done: {len(wrong)} (graph, analysis) pairs where some schedule misses the path solution")
 
     # ---- 2. binding ---------------------------------------------------------------------------
-    sample = fam[:: max(1, len(fam) // ctx.pick(60, 1500))] + rgraphs[: ctx.pick(80, 2500)]
-    runs_a = real_runs_abstract(sample, ctx.seed, ctx.pick(3, 8))
+    sample = fam[:: max(1, len(fam) // ctx.pick(60, 1500))] + rgraphs[: ctx.pick(40, 2500)]
+    runs_a = real_runs_abstract(sample, ctx.seed, ctx.pick(1, 8))
     small = [g for g in sample if g["n"] <= 3][: ctx.pick(15, 400)]
     base = len(sample)
     for i, g in enumerate(small):
         for mode in ("live", "assign"):
-            for r in dfs_schedules(g, mode, ctx.pick(30, 200)):
+            for r in dfs_schedules(g, mode, ctx.pick(12, 200)):
                 r["graph"] = sample.index(g) + 1
                 runs_a.append(r)
     ctx.log(f"abstract-graph real runs: {len(runs_a)}")
